@@ -280,10 +280,14 @@ func (f *family) doRollupWork(sourceFamily Family, rollup Rollup, sourceFiles []
 	var inputFiles []*version.FileMeta
 	var logs []version.Log
 	for fileNumber := range targetFiles {
-		if fm, ok := v.GetFile(0, fileNumber); ok {
-			inputFiles = append(inputFiles, fm)
-			logs = append(logs, version.CreateNewReferenceFile(sourceStore, sourceFamilyID, fileNumber))
+		fm, ok := v.GetFile(0, fileNumber)
+		if !ok {
+			// source file was compacted(not in level0 now), but it's kept as live rollup file until rollup completed,
+			// need read it by file number, else its data is never rolled up(rollup mark will be deleted).
+			fm = version.NewFileMeta(fileNumber, 0, 0, 0)
 		}
+		inputFiles = append(inputFiles, fm)
+		logs = append(logs, version.CreateNewReferenceFile(sourceStore, sourceFamilyID, fileNumber))
 	}
 	compaction := version.NewCompaction(f.ID(), 0, inputFiles, nil)
 	// add reference file edit logs
